@@ -1,5 +1,6 @@
 """C13  Replies are classified by their status words; bad replies cannot pass or crash."""
 from vlib.ob import Registry
+from vlib.sym import concrete
 from vlib import scen, chplugin
 from vlib.ref import eip
 from vlib.sym import sym_and, sym_or
@@ -144,7 +145,7 @@ def _mk_encap_known(kind):
     inner = _mk_encap(kind)
 
     def h(k: int, st: int) -> str:
-        return inner(ENCAP_CODES[k], st)
+        return inner(ENCAP_CODES[concrete(k)], st)
     return h
 
 
@@ -184,7 +185,7 @@ def _mk_multi(n):
     def body(xs):
         try:
             from harness.C01 import TAGS
-            sts = [MULTI_STATUSES[x] for x in xs[:n]]      # table lookup by symbolic index: enumerated by the engine
+            sts = [MULTI_STATUSES[concrete(x)] for x in xs[:n]]      # table lookup by symbolic index: enumerated by the engine
             state = {"i": 0}
 
             def hook(svc, segs, data, tr):
